@@ -385,7 +385,8 @@ def rule_r5(ctx) -> List[R.Inst]:
     ign_ok = isinstance(ign, ast.Constant) and ign.value is True
     sort_ok = any(isinstance(n, ast.IfExp) and unparse(n.test) == "sort" and "sorted" in unparse(n.body) and
                   "sorted" not in unparse(n.orelse) for n in ast.walk(fn.node)) or any(
-        isinstance(n, ast.If) and unparse(n.test) == "sort" for n in ast.walk(fn.node))
+        isinstance(n, ast.If) and unparse(n.test) == "sort" and any("sorted" in unparse(b_) or ".sort(" in unparse(b_) for b_ in n.body) and
+        not any("sorted" in unparse(b_) for b_ in n.orelse) for n in ast.walk(fn.node))
     # the concatenated frame is what the new list holds: no cast / reshaping between the concat and the constructor
     ctor = [n for n in walk_no_nested(fn.node) if isinstance(n, ast.Call) and unparse(n.func) in ("self.__class__", "type(self)")]
     carried = None
@@ -1118,6 +1119,20 @@ def rule_r13(ctx) -> List[R.Inst]:
                      R.viol(rid, "empty", file, line,
                             f"empty(n) repeats the single default row: all n cells of an object column are the same Python object ({what}); "
                             f"giving one note a key sound gives it to all of them", construct="empty: index.repeat(rows) without per-row copies"))
+    # (b') rows repeated through `.loc[index.repeat(n)]` all carry the label of the one default row: the labels are renumbered
+    # (reset_index(drop=True) / ignore_index) before anything is stored by label into the frame and before it becomes the list
+    loc_rep = [n for n in ast.walk(fn.node) if isinstance(n, ast.Subscript) and isinstance(n.value, ast.Attribute) and n.value.attr == "loc" and
+               any(isinstance(x, ast.Call) and call_name(x) == "repeat" and "index" in unparse(x.func) for x in ast.walk(n.slice))]
+    if loc_rep:
+        renum = any(isinstance(x, ast.Call) and call_name(x) == "reset_index" and
+                    any(k.arg == "drop" and isinstance(k.value, ast.Constant) and k.value.value is True for k in x.keywords) for x in ast.walk(fn.node)) or \
+            any(isinstance(k, ast.keyword) and k.arg == "ignore_index" and isinstance(k.value, ast.Constant) and k.value.value is True for k in ast.walk(fn.node))
+        insts.append(R.ok(rid, "empty:labels", file, loc_rep[0].lineno, idiom="repeated rows renumbered 0..n-1 (reset_index(drop=True))") if renum else
+                     R.viol(rid, "empty:labels", file, loc_rep[0].lineno,
+                            f"'{unparse(loc_rep[0])[:60]}' repeats the one default row WITH its label: all n rows of empty(n) are labelled 0, so a "
+                            f"column stored into the frame as a Series (the per-row copies, a converter's label-aligned store, the stacker's "
+                            f".loc selection) lands on every row at once — n rows that cannot be told apart by label",
+                            construct="empty: index.repeat(rows) without renumbering the labels"))
     # (c) from_dict fill
     fn = M.nfn(TL + ".from_dict", subst=True)      # a list of copies named before it is stored is put back into the store
     file, line = fn_loc(M, TL + ".from_dict")
